@@ -348,12 +348,25 @@ func countCalls(p *Prog, fnName, callee string) int {
 	n := 0
 	for _, f := range withClosures(fn) {
 		eachInstr(f, func(b *ssa.BasicBlock, in ssa.Instruction) {
-			if c, ok := in.(ssa.CallInstruction); ok && (calleeFullName(c) == callee || strings.HasSuffix(calleeFullName(c), callee)) {
-				n++
+			if c, ok := in.(ssa.CallInstruction); ok {
+				name := calleeFullName(c)
+				if name == callee || strings.HasSuffix(name, callee) || (isSortCall(callee) && isSortCall(name)) {
+					n++
+				}
 			}
 		})
 	}
 	return n
+}
+
+// isSortCall: any of the standard sorting entry points (a guard that relies on "the collection is
+// sorted" does not care which one is used)
+func isSortCall(name string) bool {
+	switch name {
+	case "sort.Sort", "sort.Stable", "sort.Slice", "sort.SliceStable", "sort.Strings", "sort.Ints", "sort.Float64s":
+		return true
+	}
+	return strings.HasPrefix(name, "slices.Sort")
 }
 
 // guardedExc applies the exception table but voids an entry whose guards fail.
